@@ -193,7 +193,7 @@ theorem d11_witness :
 
 /-! ### the model's atomic steps are the code's critical sections (regenerated facts) -/
 
-theorem tie_atomic : Gen.atomicTieOk = true := by decide
+theorem tie_atomic : tieItem Gen.atomicTie "atomic:client.Client.call" = true := by decide
 
 /-- a cancelled blocking call looks its own entry up and removes it under one acquisition of the
     client mutex (`ctxDone` in the model) -/
